@@ -135,7 +135,8 @@ def collect(ctx, validated, mine, conf):
                 a = aux[tid][step - 1]
                 info = m['infos'][step - 1]
                 detail = json.dumps({'opts': ev.get('opts', {}).get('all'), 'exc': a.get('exc'), 'cutExc': a.get('cutExc'),
-                                     'op': ev.get('op'), 'kind': ev.get('kind'), 'ekind': ev.get('ekind')}, default=str)
+                                     'op': ev.get('op'), 'kind': ev.get('kind'), 'ekind': ev.get('ekind'),
+                                     'pieceEndsCont': (a.get('piece') or '').rstrip(' \t').endswith('\\\n')}, default=str)
                 ctx.violation(clause, klass, {
                     'driver': 'c07_extract', 'what': m['what'], 'prog': m['prog'], 'variant': m['variant'], 'seed': m['seed'],
                     'trace': tid, 'conf': conf, 'failing_step': step, 'info': info, 'src': m['src'],
